@@ -10,6 +10,7 @@ import (
 
 	"github.com/dtn7/dtn7-go/pkg/bpv7"
 	"github.com/dtn7/dtn7-go/pkg/cla"
+	"github.com/dtn7/dtn7-go/pkg/verifhook"
 )
 
 // EpidemicRouting is an implementation of a Algorithm and behaves in a
@@ -167,6 +168,7 @@ func (er *EpidemicRouting) ReportFailure(bp BundleDescriptor, sender cla.Converg
 	if !ok {
 		sentEids = make([]bpv7.EndpointID, 0)
 	}
+	verifhook.At("routing.epidemic.reportfailure")
 
 	log.WithFields(log.Fields{
 		"bundle":  bp.ID(),
